@@ -54,7 +54,7 @@ Proof.
       by (intros l; now rewrite E).
     destruct (negb (Reply.std_registered (m_id (p_msg p)))).
     + cbn [handler_bodies flat_map app]. destruct (p_complete p); cbn [map filter fst]; rewrite ?E; reflexivity.
-    + destruct (_ && _).
+    + destruct (_ && _ && _).
       * cbn [handler_bodies flat_map Reply.d_m app]. rewrite Hnil. cbn [app].
         destruct (p_complete p); cbn [map filter fst]; rewrite ?E; reflexivity.
       * cbn [handler_bodies flat_map app]. destruct (p_complete p); cbn [map filter fst]; rewrite ?E; reflexivity.
